@@ -176,18 +176,33 @@ func init() {
 					defer e.close()
 					e.idp.mu.Lock()
 					e.idp.rotateRT = true
-					if sc.kind == "reject" || sc.kind == "cookie-reject" {
-						e.idp.tokenTTL = 2 * time.Second // the ID token and the session expire while we wait
-					}
 					e.idp.mu.Unlock()
 					if k := strings.TrimPrefix(sc.kind, "cookie-"); k == "twice-noid" || k == "nort-invalid" || k == "nort-valid" {
 						e.seqScenario(c, k, in, si)
 						c.count("scenario:" + k)
 						return
 					}
-					b := newBrowser()
-					lr := e.login(b, defaultUser(), "/")
-					created := time.Now()
+					// (a saturated machine can make a login take longer than a short token lifetime: retry with a longer one)
+					var b *browser
+					var lr *loginResult
+					var loginStart, created time.Time
+					ttl := 3 * time.Second
+					for attempt := 0; attempt < 3; attempt++ {
+						if sc.kind == "reject" || sc.kind == "cookie-reject" {
+							e.idp.mu.Lock()
+							e.idp.tokenTTL = ttl
+							e.idp.mu.Unlock()
+						}
+						b = newBrowser()
+						loginStart = time.Now()
+						lr = e.login(b, defaultUser(), "/")
+						created = time.Now()
+						if lr.OK {
+							break
+						}
+						ttl *= 3
+						c.count("login-retried")
+					}
 					if !lr.OK {
 						c.violation("HARNESS", "login failed in refresh-e2e", in)
 						return
@@ -196,7 +211,10 @@ func init() {
 					oldAT := fmt.Sprintf("at-%d", seq0)
 					// a request while the session is young: no refresh
 					r0 := e.fire(1, b.cookieHeader())
-					if rc, _, _ := e.idpCounts(); rc != 0 || r0[0].status != 200 || r0[0].at != oldAT {
+					if time.Since(loginStart) > 700*time.Millisecond {
+						// the machine is too slow for "young" (refresh period 1 s) to be meaningful
+						c.count("young-check-skipped-slow")
+					} else if rc, _, _ := e.idpCounts(); rc != 0 || r0[0].status != 200 || r0[0].at != oldAT {
 						c.violation("C12", fmt.Sprintf("young session: status %d token %q refreshes %d (want 200, %q, 0)", r0[0].status, r0[0].at, rc, oldAT), in)
 					}
 					c.casen(fmt.Sprintf("%d:young", si), "young session served without refresh")
@@ -204,11 +222,18 @@ func init() {
 						e.failRefresh()
 					}
 					if sc.kind == "reject" || sc.kind == "cookie-reject" {
-						time.Sleep(time.Until(created.Add(2200 * time.Millisecond)))
+						time.Sleep(time.Until(created.Add(ttl + 300*time.Millisecond))) // the ID token expires while we wait
 					}
 					waitStale(created, sc.jitter)
 					cookie := b.cookieHeader()
+					fireStart := time.Now()
 					res := e.fire(sc.n, cookie)
+					if (sc.kind == "once" || sc.kind == "keep-old") && time.Since(fireStart) > 1500*time.Millisecond {
+						// C12's proviso ("provided the provider answers within the refresh lock's duration", 2 s) cannot be
+						// vouched for on a machine this slow: the scenario is not judged
+						c.count("scenario:proviso-not-met-slow")
+						return
+					}
 					refreshes, staleUse, seq1 := e.idpCounts()
 					in["statuses"] = fmt.Sprint(res)
 					in["idp_refresh_calls"] = refreshes
@@ -238,6 +263,10 @@ func init() {
 						// later requests: new tokens, no further refresh
 						later := e.fire(2, cookie)
 						r2, _, _ := e.idpCounts()
+						if time.Since(fireStart) > 800*time.Millisecond {
+							later = nil // too slow: the refreshed session may legitimately be due again (refresh period 1 s)
+							c.count("later-check-skipped-slow")
+						}
 						for _, r := range later {
 							if r.status != 200 || r.at != newAT || r2 != 1 {
 								c.violation("C12", fmt.Sprintf("later request: status %d token %q refreshes %d (want 200, %q, 1)", r.status, r.at, r2, newAT), in)
@@ -292,7 +321,9 @@ func init() {
 						b.apply(r.raw)
 						again := e.fire(1, b.cookieHeader())
 						rB, sB, _ := e.idpCounts()
-						if again[0].status != 200 || again[0].at != newAT || rB != 1 || sB != 0 {
+						if time.Since(fireStart) > 800*time.Millisecond {
+							c.count("later-check-skipped-slow")
+						} else if again[0].status != 200 || again[0].at != newAT || rB != 1 || sB != 0 {
 							c.violation("C12", fmt.Sprintf("cookie store: request with the re-issued cookie got status %d token %q, refreshes %d stale uses %d (want 200, %q, 1, 0)", again[0].status, again[0].at, rB, sB, newAT), in)
 						}
 						c.casen(fmt.Sprintf("%d:cookie-ok", si), "cookie store sequential refresh")
